@@ -98,6 +98,29 @@ pub fn judge_contents_ctx(model: &Model, got: &BTreeMap<Key, Val>, lo: u64, hi: 
 			}
 		}
 	}
+	// explanation predicate "post_wal_failure_not_undone": commits that returned an error
+	// after their WAL record had been appended are replayed by recovery
+	if v.explained.is_none() {
+		let ghost = |c: &crate::model::Commit| c.status == crate::model::Status::Failed;
+		if model.commits.iter().any(|c| ghost(c)) {
+			let mut keys: Vec<Key> = model.all_keys();
+			for k in got.keys() {
+				if !keys.contains(k) {
+					keys.push(k.clone());
+				}
+			}
+			let ghost_seqs: Vec<u64> = model.commits.iter().filter(|c| ghost(c) && c.last_seq >= lo).map(|c| c.last_seq).collect();
+			for p in bounds.iter().filter(|b| **b >= lo && **b <= hi).copied().chain(ghost_seqs.into_iter()) {
+				let pp = p.max(lo);
+				let ok = keys.iter().all(|k| model.possible2(k, pp, &|c| c.straddled(), &ghost).contains(&got.get(k).cloned()));
+				if ok {
+					v.explained = Some("post_wal_failure_not_undone".into());
+					v.detail = format!("{} [explained by known finding post_wal_failure_not_undone: the extra data belongs to commits that failed after their WAL append]", v.detail);
+					break;
+				}
+			}
+		}
+	}
 	// explanation predicate "recovery_split_flush": the crash happened after a recovery had
 	// flushed an intermediate memtable, and everything that is missing was logged in one
 	// single WAL segment S (replay split S over two memtables, the flush of the first
